@@ -9,6 +9,11 @@ def run(tier, seed):
         from ..propbase import deductive
         import contracts.typo as CT
         deductive(rep, "C19", CT.FUNCS, "contracts.typo")
+        import contracts.rxrules as RXR
+        import contracts.inline as CI
+        # escapes and entities reach the typographic rules as text_special tokens, never as text
+        deductive(rep, "C19", [RXR.QE], "contracts.rxrules")
+        deductive(rep, "C19", CI.C09_FUNCS, "contracts.inline")
     except ImportError:
         pass
     from .. import reads, vocab
